@@ -3,6 +3,7 @@ import glob
 import hashlib
 import os
 import re
+import shutil
 import subprocess
 import time
 
@@ -70,6 +71,68 @@ def emit_mir_parser():
     os.replace(fs[0], out)
     core.log(f"[mirsym] parser MIR emitted in {time.time()-t:.1f}s -> {out}")
     return out
+
+
+def emit_mir_sqlparser():
+    """MIR of the sqlparser dependency as the workspace resolves it (only the `ast::value` bodies and the escape helpers are kept:
+    the Display code that writes every literal prqlc emits); cached by Cargo.lock hash"""
+    lock = open(os.path.join(core.REPO, "Cargo.lock"), "rb").read()
+    th = hashlib.sha256(lock).hexdigest()[:16]
+    out = os.path.join(MIR_DIR, f"sqlparser-{th}.mir")
+    if os.path.exists(out):
+        return out
+    os.makedirs(MIR_DIR, exist_ok=True)
+    tgt = os.path.join(MIR_DIR, "target")
+    env = dict(os.environ, CARGO_TARGET_DIR=tgt, CARGO_NET_OFFLINE="true")
+    env.pop("RUSTUP_TOOLCHAIN", None)
+    t = time.time()
+    for f in glob.glob(os.path.join(tgt, "debug", "deps", "sqlparser-*.mir")):
+        os.remove(f)
+    for f in glob.glob(os.path.join(tgt, "debug", ".fingerprint", "sqlparser-*")):
+        shutil.rmtree(f, ignore_errors=True)
+    r = subprocess.run(["cargo", "+nightly", "rustc", "--offline", "-p", "sqlparser", "--lib", "--", "--emit=mir", "-Zmir-opt-level=0",
+                        "-C", "debug-assertions=off", "-C", "overflow-checks=on"], cwd=os.path.join(core.REPO, "prqlc/prqlc"), env=env,
+                       stdout=subprocess.PIPE, stderr=subprocess.STDOUT, text=True)
+    fs = glob.glob(os.path.join(tgt, "debug", "deps", "sqlparser-*.mir"))
+    if r.returncode != 0 or not fs:
+        raise core.EngineError("MIR emission (sqlparser) failed:\n" + r.stdout[-2000:])
+    keep = re.compile(r"^(fn|const) (ast::value::|escape_\w+|<impl at [^>]*src/ast/value\.rs)")
+    with open(fs[0]) as fi, open(out + ".tmp", "w") as fo:
+        on = False
+        for line in fi:
+            if line.startswith(("fn ", "const ", "static ")):
+                on = keep.match(line) is not None
+            if on:
+                fo.write(line)
+    for f in fs:
+        os.remove(f)
+    for old in glob.glob(os.path.join(MIR_DIR, "sqlparser-*.mir")):
+        os.remove(old)
+    os.replace(out + ".tmp", out)
+    core.log(f"[mirsym] sqlparser MIR emitted in {time.time()-t:.1f}s -> {out}")
+    return out
+
+
+def sqlparser_src():
+    lock = open(os.path.join(core.REPO, "Cargo.lock")).read()
+    m = re.search(r'name = "sqlparser"\nversion = "([^"]+)"', lock)
+    if not m:
+        raise core.EngineError("sqlparser not in Cargo.lock")
+    ds = glob.glob(os.path.expanduser(f"~/.cargo/registry/src/*/sqlparser-{m.group(1)}"))
+    if not ds:
+        raise core.EngineError("sqlparser source not in the cargo registry")
+    return ds[0]
+
+
+def load_sqlparser(want_regex):
+    path = emit_mir_sqlparser()
+    key = (path, want_regex)
+    if key not in _FUNCS:
+        rx = re.compile(want_regex)
+        fs = mir.parse_file(path, want=lambda n: rx.search(n) is not None)
+        fs.update(mir.parse_file(os.path.join(HERE, "prelude.mir")))
+        _FUNCS[key] = fs
+    return _FUNCS[key]
 
 
 def load_parser(want_regex):
